@@ -75,8 +75,7 @@ def generate_structure_checks(env, res):
         for g in lvs:
             n += 1
             res.count("R01.a")
-            if g.end is not None and g.end[0] in ("bound",):
-                continue
+            # (a leaf cut by the exploration bound still has a real prefix: its calls are checked like any other)
             calls = [e for e in g.events if e[0] == "call"]
             last_valid = None
             fresh = False
@@ -123,13 +122,16 @@ def generate_structure_checks(env, res):
                 continue
             asked, vec = r
             row = t2.get(ver, [])
-            if [a for a, _ in asked] != row[:len(asked)] or len(asked) != len(row):
-                res.add("R01.a", "get_valid_opcodes/not-table-row", "get_valid_opcodes (protocol %d) does not ask can_emit for exactly the opcodes of the protocol's table row, in order" % ver, lv)
+            # safety direction only (C12 owns the other one, rules_c12 C12.e): whatever is offered must be an opcode of the
+            # protocol's row whose guard was consulted and held.  Offering fewer opcodes cannot break the stack discipline.
+            outside = [a for a, _ in asked if a not in row]
+            if outside:
+                res.add("R01.a", "get_valid_opcodes/not-table-row", "get_valid_opcodes (protocol %d) considers %r, which the protocol's table row does not contain" % (ver, outside[:4]), lv)
                 break
             got = [v.vname for v in GA.M.as_elems(None, vec)] if hasattr(vec, "elems") else None
             want = [a for a, c in asked if c]
-            if got != want:
-                res.add("R01.a", "get_valid_opcodes/filter", "get_valid_opcodes returns %r although can_emit holds exactly for %r" % (got, want), lv)
+            if got is None or [g for g in got if g not in want]:
+                res.add("R01.a", "get_valid_opcodes/filter", "get_valid_opcodes returns %r although can_emit was consulted and held only for %r" % (got, want), lv)
                 break
     lw = PV.op_loc(env, "::weighted_choice")
     # the empty list is only a relevant argument if the generation loop can pass one
